@@ -172,11 +172,11 @@ class Gen:
             elif t < 0.28:
                 tag = 'json:"j" hseq:"%s"' % r.choice(TAG_ALIASES)
             if depth < 3 and x < (0.16 if depth < 2 else 0.10):
-                sub = self.gen_struct(depth + 1)
+                sub = self.reuse_or_new(depth, used, r)
                 used.add(sub.name)
                 st.fields.append(Field(sub.name, None, tag, embedded=True, ptr=False, struct=sub))
             elif depth < 3 and x < 0.22:
-                sub = self.gen_struct(depth + 1)
+                sub = self.reuse_or_new(depth, used, r)
                 used.add(sub.name)
                 st.fields.append(Field(sub.name, None, tag, embedded=True, ptr=True, struct=sub))
             elif x < 0.27:
@@ -194,6 +194,14 @@ class Gen:
                 st.fields.append(Field(fname(), r.choice(BASE), tag))
         self.structs.append(st)
         return st
+
+    def reuse_or_new(self, depth, used, r):
+        """an embedded struct is sometimes a type that is already embedded elsewhere (the same type reached along
+        several paths of one outer type, by value or by pointer); completed types cannot contain the current one"""
+        cand = [s for s in self.structs if s.name.startswith('E') and s.name not in used and len(s.fields) <= 6]
+        if cand and r.random() < 0.35:
+            return r.choice(cand[-12:])
+        return self.gen_struct(depth + 1)
 
     # ------------------------------------------------------------------ emission helpers
     def w(self, s=''):
@@ -654,6 +662,22 @@ func off[S any, F any](s *S, f *F) uintptr { return uintptr(unsafe.Pointer(f)) -
             bad = (NEAR.get(e1.gotype()) or ['chan int'])[0]
             if canon_of(bad) != e1.canon():
                 neg.append(('2', [e0.gotype(), bad], [okn[0], okn[1]], 'second focus type %s does not match field %s' % (bad, okn[1])))
+        shadow = []
+        for i, e2 in enumerate(L):
+            e1 = self.resolve_name(L, e2.key())
+            if e1 is not e2 and e1.canon() != e2.canon() and ok_name(e2.key()) and not e2.crossing:
+                shadow.append((i, e2, e1))
+        for i, e2, e1 in shadow[:4]:
+            T2 = e2.gotype()
+            req = 'ForProduct1[%s, %s](%s) after valid derivations of the shadowed field' % (S, T2.replace('\n', ' '), e2.key())
+            self.case_begin('C02', 'shadowed/must-fail', st, req, 'panic: name %s resolves to the first field of that key, whose type is %s' % (e2.key(), e1.gotype().replace('\n', ' ')))
+            self.w('\trt.Derive(func() {\n\t\tseq := hseq.New[%s]()\n\t\t_ = optics.NewLens[%s, %s](seq[%d])\n\t\t_ = optics.NewReflector[%s, %s](seq[%d])\n\t})' % (S, S, T2, i, S, T2, i))
+            if self.resolve_type(L, e2.canon()) is e2:
+                self.w('\trt.Derive(func() { _ = optics.ForProduct1[%s, %s](); _ = optics.ForSpectrum1[%s, %s]() })' % (S, T2, S, T2))
+            self.w('\tif pn, _ := rt.Derive(func() { _ = optics.ForProduct1[%s, %s](%s) }); !pn {\n\t\trt.Accepted("C02", c, "the name resolves to a field of another type (Lens)")\n\t}' % (S, T2, q(e2.key())))
+            self.w('\tif pn, _ := rt.Derive(func() { _ = optics.ForSpectrum1[%s, %s](%s) }); !pn {\n\t\trt.Accepted("C02", c, "the name resolves to a field of another type (Reflector)")\n\t}' % (S, T2, q(e2.key())))
+            self.w('\tif pn, _ := rt.Derive(func() { _ = optics.ForShape2[%s, %s, %s](%s, %s) }); !pn {\n\t\trt.Accepted("C02", c, "the name resolves to a field of another type (Shape2, second focus)")\n\t}' % (S, e1.gotype(), T2, q(e1.key()), q(e2.key())))
+            self.case_end('C02/%s/%s' % (S, req), True)
         fams = ['ForProduct', 'ForSpectrum', 'ForShape']
         crossing_neg = [n for n in neg if 'embedded pointer' in n[3]]
         other_neg = [n for n in neg if 'embedded pointer' not in n[3]]
@@ -722,7 +746,10 @@ func off[S any, F any](s *S, f *F) uintptr { return uintptr(unsafe.Pointer(f)) -
             for what, arg, m, sz in (
                 ('the struct by value', 'g.s', 'mem', 'size'), ('pointer to pointer', 'pps', 'mem', 'size'), ('pointer to another struct', 'other', 'unsafe.Pointer(other)', 'unsafe.Sizeof(*other)'),
                 ('untyped nil', 'nil', 'nil', '0'), ('an int', '42', 'nil', '0'), ('unsafe.Pointer to the struct', 'unsafe.Pointer(ps)', 'mem', 'size'),
-                ('uintptr of the struct', 'uintptr(unsafe.Pointer(ps))', 'mem', 'size')):
+                ('uintptr of the struct', 'uintptr(unsafe.Pointer(ps))', 'mem', 'size'),
+                ('typed nil *int', '(*int)(nil)', 'nil', '0'), ('typed nil pointer to pointer', '(**%s)(nil)' % S, 'nil', '0'),
+                ('typed nil pointer to another struct', '(*struct {\n\t\tq [4]uint64\n\t\tw string\n\t})(nil)', 'nil', '0'),
+                ('typed nil pointer to a look-alike', '(*xa.Box)(nil)', 'nil', '0')):
                 self.w('\trt.WrongArg("C02", c, %s, %s, %s, func() { l.Gett(%s) })' % (q('Gett(' + what + ')'), m, sz, arg))
                 self.w('\trt.WrongArg("C02", c, %s, %s, %s, func() { l.Putt(%s, v) })' % (q('Putt(' + what + ')'), m, sz, arg))
             self.case_end('C02/%s/reflector-wrong-arg' % S, True)
